@@ -120,11 +120,22 @@ Proof.
 Qed.
 
 Definition rel (ts : tstate) (ss : sstate) : Prop :=
-  t_set ts = s_set ss /\ t_dd ts = s_dd ss /\ t_fork_dd ts = s_fork ss /\
+  t_set ts = s_set ss /\ t_dd ts = s_dd ss /\ t_fork_dd ts = s_fork ss /\ t_orphan ts = s_orphan ss /\
   (s_set ss = true -> t_sc ts = N.of_nat (length (s_stk ss)) /\ live (t_stack ts) (s_stk ss)).
 
-Lemma rel0 : rel tstate0 sstate0.
+Lemma rel_init o : rel (tstate_init o) (mkss false 0 0 [] o).
 Proof. repeat split; cbn in *; discriminate. Qed.
+Lemma rel0 : rel tstate0 sstate0.
+Proof. apply (rel_init false). Qed.
+
+Lemma consume_orphan inh ts r : t_orphan (consume_task inh ts r) = t_orphan ts.
+Proof.
+  unfold consume_task, count, account, first_setup.
+  destruct (t_set ts); destruct (r_type r); cbn [t_orphan t_sc]; try reflexivity;
+    match goal with |- context [if ?b then _ else _] => destruct b end; reflexivity.
+Qed.
+Lemma s_first_orphan inh ss r : s_orphan (s_first inh ss r) = s_orphan ss.
+Proof. unfold s_first. destruct (s_set ss); reflexivity. Qed.
 
 Lemma setup_rel inh ts ss r : rel ts ss ->
   let ts' := first_setup inh ts r in
@@ -133,11 +144,11 @@ Lemma setup_rel inh ts ss r : rel ts ss ->
   t_sc ts' = N.of_nat (length (s_stk ss')) /\ live (t_stack ts') (s_stk ss') /\
   t_ts ts' = t_ts ts /\ t_ts_last ts' = t_ts_last ts.
 Proof.
-  intros (Hs & Hd & Hf & Hl). unfold first_setup, s_first. rewrite Hs.
+  intros (Hs & Hd & Hf & Ho & Hl). unfold first_setup, s_first. rewrite Hs.
   destruct (s_set ss) eqn:E.
   - destruct (Hl eq_refl) as [Hsc Hlive]. repeat split; auto; congruence.
   - cbn [t_set s_set t_dd s_dd t_fork_dd s_fork t_sc s_stk t_stack t_ts t_ts_last].
-    rewrite Hd, Hf. fold (first_depth r).
+    rewrite Hd, Hf, Ho. fold (first_depth r).
     repeat split; auto.
     + rewrite repeat_length. lia.
     + destruct (init_frames_live (N.to_nat (first_depth r)) (t_stack ts) (r_time r)) as (L & rest & E1 & Hm & Hv).
@@ -284,6 +295,8 @@ Proof.
   assert (Hts0 : tget g1 i = consume_task (s_inherit tasks S i) (tget g i) r).
   { unfold g1, consume, tget. cbn [g_tasks]. rewrite nth_tupd by assumption. rewrite Nat.eqb_refl, Hinh. reflexivity. }
   set (ss := s_first (s_inherit tasks S i) (nth i S sstate0) r) in *.
+  assert (E0 : t_orphan (tget g1 i) = s_orphan ss).
+  { rewrite Hts0, consume_orphan. unfold ss. rewrite s_first_orphan. destruct (Hall i) as (_ & _ & _ & Ho & _). exact Ho. }
   destruct (r_type r) eqn:Hty.
   - (* ENTRY *)
     destruct (entry_rel (s_inherit tasks S i) _ _ r (Hall i) Hty) as (E1 & E2 & E3 & E4 & E5).
@@ -303,8 +316,8 @@ Proof.
         destruct (Nat.eqb j i) eqn:Eji.
         + unfold rel, is_fork. cbn [c_forks].
           destruct (existsb (N.eqb (r_addr r)) forks);
-            cbn [set_dd set_fork stamp t_set t_dd t_fork_dd t_sc t_stack s_set s_dd s_fork s_stk];
-            unfold tget in *; rewrite ?E1, ?E2, ?E3; repeat split; auto.
+            cbn [set_dd set_fork stamp t_set t_dd t_fork_dd t_sc t_stack t_orphan s_set s_dd s_fork s_stk s_orphan];
+            unfold tget in *; rewrite ?E1, ?E2, ?E3, ?E0; repeat split; auto.
         + unfold g1, consume. cbn [g_tasks]. rewrite nth_tupd by assumption. rewrite Eji. apply Hall. }
     split.
     { rewrite nth_supd by assumption. rewrite Nat.eqb_refl. unfold wfrem. cbn [s_set s_stk].
@@ -332,8 +345,8 @@ Proof.
         assert (Hg1 : (i < length (g_tasks g1))%nat) by (unfold g1, consume; cbn [g_tasks]; rewrite length_tupd; lia).
         rewrite nth_tupd by assumption. rewrite nth_supd by assumption.
         destruct (Nat.eqb j i) eqn:Eji.
-        + unfold rel. cbn [set_dd stamp t_set t_dd t_fork_dd t_sc t_stack s_set s_dd s_fork s_stk].
-          unfold tget in *. rewrite ?E1, ?E2, ?E3. repeat split; auto.
+        + unfold rel. cbn [set_dd stamp t_set t_dd t_fork_dd t_sc t_stack t_orphan s_set s_dd s_fork s_stk s_orphan].
+          unfold tget in *. rewrite ?E1, ?E2, ?E3, ?E0. repeat split; auto.
         + unfold g1, consume. cbn [g_tasks]. rewrite nth_tupd by assumption. rewrite Eji. apply Hall. }
     split.
     { rewrite nth_supd by assumption. rewrite Nat.eqb_refl. unfold wfrem. cbn [s_set s_stk].
@@ -378,37 +391,59 @@ Proof. induction tasks as [|t rest IH]; intros k; cbn; [reflexivity|]. rewrite I
 Lemma nth_const {A B} (l : list A) (x : B) i : nth i (map (fun _ => x) l) x = x.
 Proof. revert i. induction l as [|h t IH]; intros [|i]; cbn; auto. Qed.
 
-Lemma wf_task_wfrem t : wf_task t = true -> wfrem sstate0 (k_recs t).
-Proof. unfold wf_task, wfrem. cbn [s_set sstate0]. destruct (k_recs t); auto. Qed.
+Lemma wf_task_wfrem ss t : s_set ss = false -> wf_task t = true -> wfrem ss (k_recs t).
+Proof. intros Hs. unfold wf_task, wfrem. rewrite Hs. destruct (k_recs t); auto. Qed.
 
-Definition S0 (tasks : list task) : list sstate := map (fun _ => sstate0) tasks.
+Definition S0 (sel : option (list nat)) (tasks : list task) : list sstate := init_S sel tasks.
 
-Lemma Rel_init sel tasks : Rel (init_g sel tasks) (S0 tasks).
+Lemma orphan_default sel tasks : orphan_of sel tasks (mktask None []) = false.
+Proof. reflexivity. Qed.
+
+Lemma nth_S0 sel tasks i :
+  nth i (S0 sel tasks) sstate0 = mkss false 0 0 [] (orphan_of sel tasks (nth i tasks (mktask None []))).
+Proof.
+  unfold S0, init_S.
+  change sstate0 with ((fun t => mkss false 0 0 [] (orphan_of sel tasks t)) (mktask None [])).
+  apply map_nth.
+Qed.
+
+Lemma tget_init sel tasks i :
+  tget (init_g sel tasks) i = tstate_init (orphan_of sel tasks (nth i tasks (mktask None []))).
+Proof.
+  unfold tget, init_g. cbn [g_tasks].
+  change tstate0 with ((fun t => tstate_init (orphan_of sel tasks t)) (mktask None [])).
+  apply map_nth.
+Qed.
+
+Lemma length_S0 sel tasks : length (S0 sel tasks) = length tasks.
+Proof. unfold S0, init_S. apply map_length. Qed.
+
+Lemma Rel_init sel tasks : Rel (init_g sel tasks) (S0 sel tasks).
 Proof.
   split.
-  - unfold init_g, S0. cbn [g_tasks]. rewrite !map_length. reflexivity.
-  - intros i. unfold tget, init_g, S0. cbn [g_tasks]. rewrite !nth_const. apply rel0.
+  - rewrite length_S0. unfold init_g. cbn [g_tasks]. apply map_length.
+  - intros i. rewrite tget_init, nth_S0. apply rel_init.
 Qed.
 
 (* C06, refinement: what `replay --no-merge [--tid ...]` prints is the reference semantics of
    the merged (selected) records, whenever every task's stream is well-formed *)
 Theorem replay_refines_spec forks sel tasks : forallb wf_task tasks = true ->
   events_of (fst (replay_raw (mkcfg false forks) sel tasks)) =
-  srun forks tasks (merge (mask_queues sel tasks 0)) (S0 tasks).
+  srun forks tasks (merge (mask_queues sel tasks 0)) (S0 sel tasks).
 Proof.
   intros Hwf. unfold replay_raw. apply run_refines.
   - apply Rel_init.
   - pose proof (merge_tags_valid (mask_queues sel tasks 0)) as H.
-    rewrite mask_queues_mask, length_mask, map_length in H. unfold S0. rewrite map_length.
+    rewrite mask_queues_mask, length_mask, map_length in H. rewrite length_S0.
     rewrite mask_queues_mask. exact H.
-  - intros i. rewrite merge_preserves_task_order. unfold S0. rewrite nth_const.
+  - intros i. rewrite merge_preserves_task_order. rewrite nth_S0.
     rewrite mask_queues_mask, nth_mask. cbn [Nat.add].
     destruct (selected sel i); [|exact I].
     destruct (Nat.lt_ge_cases i (length tasks)) as [Hlt|Hge].
     + rewrite (nth_indep _ [] (k_recs (mktask None []))) by (rewrite map_length; exact Hlt).
-      rewrite map_nth. apply wf_task_wfrem.
+      rewrite map_nth. apply wf_task_wfrem; [reflexivity|].
       rewrite forallb_forall in Hwf. apply Hwf. apply nth_In. exact Hlt.
-    + rewrite nth_overflow by (rewrite map_length; exact Hge). exact I.
+    + rewrite (nth_overflow (map k_recs tasks)) by (rewrite map_length; exact Hge). exact I.
 Qed.
 
 (* ------------------------------------------------------------------ the reference semantics, task by task *)
@@ -449,7 +484,8 @@ Definition task_spec (i : nat) (ss : sstate) (rs : list rec) : list event :=
 Lemma srun_task forks tasks i : forall l S,
   Forall (fun p => (fst p < length S)%nat) l ->
   (forall j, wfrem (nth j S sstate0) (proj j l)) ->
-  k_parent (nth i tasks (mktask None [])) = None \/ s_set (nth i S sstate0) = true ->
+  (k_parent (nth i tasks (mktask None [])) = None /\ s_orphan (nth i S sstate0) = false) \/
+  s_set (nth i S sstate0) = true ->
   filter (of_task i) (srun forks tasks l S) = task_spec i (nth i S sstate0) (proj i l).
 Proof.
   induction l as [|[j r] tl IH]; intros S Hb Hwf Hpar.
@@ -472,7 +508,7 @@ Proof.
       unfold task_spec at 1. rewrite Hset'. rewrite <- Espec.
       unfold task_spec, s_first, s_inherit.
       destruct (s_set (nth i S sstate0)) eqn:Eset; [reflexivity|].
-      destruct Hpar as [Hp|Hp]; [|congruence]. rewrite Hp. cbn [N.eqb s_dd s_stk spec_start]. reflexivity.
+      destruct Hpar as [[Hp Ho]|Hp]; [|congruence]. rewrite Hp, Ho. cbn [N.eqb s_dd s_stk spec_start]. reflexivity.
     + apply Nat.eqb_neq in Eji.
       rewrite (IH _ Hb2 Hwf').
       * rewrite nth_supd by assumption. apply Nat.eqb_neq in Eji. rewrite Nat.eqb_sym, Eji.
@@ -538,7 +574,7 @@ Definition core_of (e : event) : core :=
 
 (* the reader state without the two timestamp fields *)
 Definition strip (ts : tstate) : tstate :=
-  mkts (t_set ts) (t_sc ts) (t_dd ts) (t_fork_dd ts) (t_stack ts) 0 0.
+  mkts (t_set ts) (t_sc ts) (t_dd ts) (t_fork_dd ts) (t_stack ts) 0 0 (t_orphan ts).
 Definition STR (g : gstate) : list tstate := map strip (g_tasks g).
 
 Definition inh_of (tasks : list task) (T : list tstate) (i : nat) : N :=
@@ -572,27 +608,27 @@ Proof. reflexivity. Qed.
 
 Lemma strip_consume inh ts r : strip (consume_task inh ts r) = consume_task inh (strip ts) r.
 Proof.
-  destruct ts as [st sc dd fd stk t tl]. unfold consume_task, count, account, first_setup, strip.
-  cbn [t_set t_sc t_dd t_fork_dd t_stack t_ts t_ts_last].
-  destruct st; destruct (r_type r); cbn [t_set t_sc t_dd t_fork_dd t_stack t_ts t_ts_last];
+  destruct ts as [st sc dd fd stk t tl orp]. unfold consume_task, count, account, first_setup, strip.
+  cbn [t_set t_sc t_dd t_fork_dd t_stack t_ts t_ts_last t_orphan].
+  destruct st; destruct (r_type r); cbn [t_set t_sc t_dd t_fork_dd t_stack t_ts t_ts_last t_orphan];
     try reflexivity;
     match goal with |- context [if ?b then _ else _] => destruct b end; reflexivity.
 Qed.
 
 Lemma consume_ts inh ts r : t_ts (consume_task inh ts r) = t_ts ts /\ t_ts_last (consume_task inh ts r) = t_ts_last ts.
 Proof.
-  destruct ts as [st sc dd fd stk t tl]. unfold consume_task, count, account, first_setup.
-  cbn [t_set t_sc t_dd t_fork_dd t_stack t_ts t_ts_last].
-  destruct st; destruct (r_type r); cbn [t_set t_sc t_dd t_fork_dd t_stack t_ts t_ts_last];
+  destruct ts as [st sc dd fd stk t tl orp]. unfold consume_task, count, account, first_setup.
+  cbn [t_set t_sc t_dd t_fork_dd t_stack t_ts t_ts_last t_orphan].
+  destruct st; destruct (r_type r); cbn [t_set t_sc t_dd t_fork_dd t_stack t_ts t_ts_last t_orphan];
     try (split; reflexivity);
     match goal with |- context [if ?b then _ else _] => destruct b end; split; reflexivity.
 Qed.
 
 Lemma consume_set inh ts r : t_set (consume_task inh ts r) = true.
 Proof.
-  destruct ts as [st sc dd fd stk t tl]. unfold consume_task, count, account, first_setup.
-  cbn [t_set t_sc t_dd t_fork_dd t_stack t_ts t_ts_last].
-  destruct st; destruct (r_type r); cbn [t_set t_sc t_dd t_fork_dd t_stack t_ts t_ts_last];
+  destruct ts as [st sc dd fd stk t tl orp]. unfold consume_task, count, account, first_setup.
+  cbn [t_set t_sc t_dd t_fork_dd t_stack t_ts t_ts_last t_orphan].
+  destruct st; destruct (r_type r); cbn [t_set t_sc t_dd t_fork_dd t_stack t_ts t_ts_last t_orphan];
     try reflexivity;
     match goal with |- context [if ?b then _ else _] => destruct b end; reflexivity.
 Qed.
@@ -745,10 +781,10 @@ Proof.
             t_fork_dd (consume_task 0 x r') = t_fork_dd (consume_task 0 (set_dd x (t_dd x + 1)) r') /\
             t_sc (consume_task 0 x r') = N.pred (t_sc x) /\
             t_set (consume_task 0 (set_dd x (t_dd x + 1)) r') = true).
-  { intros [st sc dd fd stk t tl] Hst. cbn [t_set] in Hst. subst st.
+  { intros [st sc dd fd stk t tl orp] Hst. cbn [t_set] in Hst. subst st.
     unfold consume_task, count, account, first_setup, set_dd. rewrite Hty'.
-    cbn [t_set t_sc t_dd t_fork_dd t_stack t_ts t_ts_last].
-    destruct (sc =? 0); cbn [t_set t_sc t_dd t_fork_dd t_stack t_ts t_ts_last]; repeat split; reflexivity. }
+    cbn [t_set t_sc t_dd t_fork_dd t_stack t_ts t_ts_last t_orphan].
+    destruct (sc =? 0); cbn [t_set t_sc t_dd t_fork_dd t_stack t_ts t_ts_last t_orphan]; repeat split; reflexivity. }
   destruct (Hcons sa) as (C1 & C2 & C3 & C4 & C5 & C6 & C7).
   { rewrite <- Hsa. exact Hset2. }
   fold ta in C1, C2, C3, C5, C7.
@@ -770,14 +806,17 @@ Proof.
     rewrite HS2, !tupd_tupd. f_equal.
     rewrite Hget2, (consume_inh_irrelevant (inherit tasks g2 i) 0 ts2 r' Hset2). fold ts3. rewrite Hs3. rewrite C3. replace (N.pred (t_dd sa + 1)) with (t_dd sa) by lia.
     (* both states agree field by field *)
-    destruct (consume_task 0 sa r') as [st3 sc3 dd3 fd3 stk3 t3 tl3] eqn:E3.
-    destruct (consume_task 0 ta r') as [st4 sc4 dd4 fd4 stk4 t4 tl4] eqn:E4.
+    pose proof (consume_orphan 0 sa r') as O3. pose proof (consume_orphan 0 ta r') as O4.
+    assert (X0 : t_orphan sa = t_orphan ta) by (unfold ta; reflexivity).
+    destruct (consume_task 0 sa r') as [st3 sc3 dd3 fd3 stk3 t3 tl3 or3] eqn:E3.
+    destruct (consume_task 0 ta r') as [st4 sc4 dd4 fd4 stk4 t4 tl4 or4] eqn:E4.
+    cbn [t_orphan] in O3, O4.
     cbn [t_stack t_sc t_dd t_fork_dd t_set set_dd] in *.
     pose proof (consume_ts 0 sa r') as [T1 T2]. pose proof (consume_ts 0 ta r') as [T3 T4].
     rewrite E3 in T1, T2. rewrite E4 in T3, T4. cbn [t_ts t_ts_last] in *.
     pose proof (consume_set 0 sa r') as S3. rewrite E3 in S3. cbn [t_set] in S3.
     assert (t_ts sa = t_ts ta /\ t_ts_last sa = t_ts_last ta) as [X1 X2] by (unfold ta; split; reflexivity).
-    unfold set_dd. cbn [t_set t_sc t_dd t_fork_dd t_stack t_ts t_ts_last]. f_equal; congruence.
+    unfold set_dd. cbn [t_set t_sc t_dd t_fork_dd t_stack t_ts t_ts_last t_orphan]. f_equal; congruence.
 Qed.
 
 Lemma length_leaf_step c tasks g i r r' : length (g_tasks (snd (leaf_step c tasks g i r r'))) = length (g_tasks g).
@@ -845,10 +884,10 @@ Qed.
 
 (* ------------------------------------------------------------------ putting it together *)
 Lemma merged_bounds sel tasks :
-  Forall (fun p => (fst p < length (S0 tasks))%nat) (merge (mask_queues sel tasks 0)).
+  Forall (fun p => (fst p < length (S0 sel tasks))%nat) (merge (mask_queues sel tasks 0)).
 Proof.
   pose proof (merge_tags_valid (mask_queues sel tasks 0)) as H.
-  rewrite mask_queues_mask, length_mask, map_length in H. unfold S0. rewrite map_length.
+  rewrite mask_queues_mask, length_mask, map_length in H. rewrite length_S0.
   rewrite mask_queues_mask. exact H.
 Qed.
 
@@ -860,12 +899,12 @@ Lemma proj_merged sel tasks i :
 Proof. rewrite merge_preserves_task_order, mask_queues_mask, nth_mask. cbn [Nat.add]. rewrite nth_recs. reflexivity. Qed.
 
 Lemma merged_wfrem sel tasks : forallb wf_task tasks = true ->
-  forall i, wfrem (nth i (S0 tasks) sstate0) (proj i (merge (mask_queues sel tasks 0))).
+  forall i, wfrem (nth i (S0 sel tasks) sstate0) (proj i (merge (mask_queues sel tasks 0))).
 Proof.
-  intros Hwf i. rewrite proj_merged. unfold S0. rewrite nth_const.
+  intros Hwf i. rewrite proj_merged. rewrite nth_S0.
   destruct (selected sel i); [|exact I].
   destruct (Nat.lt_ge_cases i (length tasks)) as [Hlt|Hge].
-  - apply wf_task_wfrem. rewrite forallb_forall in Hwf. apply Hwf. apply nth_In. exact Hlt.
+  - apply wf_task_wfrem; [reflexivity|]. rewrite forallb_forall in Hwf. apply Hwf. apply nth_In. exact Hlt.
   - rewrite nth_overflow by exact Hge. exact I.
 Qed.
 
@@ -881,8 +920,10 @@ Theorem task_calls_exact forks sel tasks i d f t :
 Proof.
   intros Hwf Hsel Hpar Hrecs.
   rewrite (replay_refines_spec forks sel tasks Hwf).
-  rewrite (srun_task forks tasks i _ _ (merged_bounds sel tasks) (merged_wfrem sel tasks Hwf) (or_introl Hpar)).
-  rewrite proj_merged, Hsel, Hrecs. unfold S0. rewrite nth_const. unfold task_spec. cbn [s_set sstate0 s_dd].
+  assert (Ho : s_orphan (nth i (S0 sel tasks) sstate0) = false).
+  { rewrite nth_S0. cbn [s_orphan]. unfold orphan_of. rewrite Hpar. reflexivity. }
+  rewrite (srun_task forks tasks i _ _ (merged_bounds sel tasks) (merged_wfrem sel tasks Hwf) (or_introl (conj Hpar Ho))).
+  rewrite proj_merged, Hsel, Hrecs. rewrite nth_S0. unfold task_spec. cbn [s_set s_dd].
   rewrite spec_forest, spec_tail. reflexivity.
 Qed.
 
@@ -964,8 +1005,8 @@ Definition parent_closed (Sel : nat -> bool) (tasks : list task) : Prop :=
 Definition s_after (forks : list N) (ss : sstate) (r : rec) : sstate :=
   match r_type r with
   | ENTRY => mkss true (s_dd ss + 1) (if existsb (N.eqb (r_addr r)) forks then s_dd ss + 1 else s_fork ss)
-                  (r_time r :: s_stk ss)
-  | EXIT => mkss true (N.pred (s_dd ss)) (s_fork ss) (tl (s_stk ss))
+                  (r_time r :: s_stk ss) (s_orphan ss)
+  | EXIT => mkss true (N.pred (s_dd ss)) (s_fork ss) (tl (s_stk ss)) (s_orphan ss)
   end.
 
 Lemma sstep_explicit forks tasks S i r rest tl : wfrem (nth i S sstate0) (r :: rest) ->
@@ -1040,6 +1081,9 @@ Qed.
 (* C06, --tid: with a parent-closed selection of well-formed tasks, `replay --tid S` shows exactly
    the sub-sequence of the full view that belongs to the selected tasks - same lines, same
    indentation, same durations, same timestamps *)
+Lemma orphan_none tasks t : orphan_of None tasks t = false.
+Proof. unfold orphan_of. destruct (k_parent t); [|reflexivity]. cbn [selected negb]. apply andb_false_r. Qed.
+
 Theorem tid_selects forks sel tasks :
   forallb wf_task tasks = true -> parent_closed (selected sel) tasks ->
   events_of (fst (replay_raw (mkcfg false forks) sel tasks)) =
@@ -1047,23 +1091,42 @@ Theorem tid_selects forks sel tasks :
 Proof.
   intros Hwf Hpc.
   rewrite (replay_refines_spec forks sel tasks Hwf), (replay_refines_spec forks None tasks Hwf).
-  rewrite (srun_keep forks tasks (selected sel) Hpc _ (S0 tasks) (S0 tasks) eq_refl
-             (merged_bounds None tasks) (merged_wfrem None tasks Hwf) (fun _ _ => eq_refl)).
+  assert (Hag : forall i, selected sel i = true -> nth i (S0 None tasks) sstate0 = nth i (S0 sel tasks) sstate0).
+  { intros i Hi. rewrite !nth_S0, orphan_none. f_equal. unfold orphan_of.
+    destruct (k_parent (nth i tasks (mktask None []))) as [p|] eqn:Ep; [|reflexivity].
+    rewrite (Hpc i p Hi Ep). cbn [negb]. symmetry. apply andb_false_r. }
+  rewrite (srun_keep forks tasks (selected sel) Hpc _ (S0 None tasks) (S0 sel tasks)
+             (eq_trans (length_S0 None tasks) (eq_sym (length_S0 sel tasks)))
+             (merged_bounds None tasks) (merged_wfrem None tasks Hwf) Hag).
   rewrite mask_queues_none, mask_queues_mask, merge_mask. reflexivity.
 Qed.
 
-(* ... and the guard is needed: selecting only a forked child loses the depth it continues at *)
+(* ... and a guard is still needed.  A forked child selected without its parent continues at its
+   inherited STACK depth (fstack_account_time clears display_depth_set when the parent reader is
+   not selected); in the full view it continues at its parent's DISPLAY depth.  The two differ when
+   the parent itself is displayed with an offset (its stream starts at depth 2 here). *)
 Definition tid_witness_tasks : list task :=
   [ mktask None [mkrec 1000 ENTRY 0 1; mkrec 1100 ENTRY 1 2; mkrec 1200 ENTRY 2 4; mkrec 1300 EXIT 2 4;
                  mkrec 1400 EXIT 1 2; mkrec 1500 EXIT 0 1];
     mktask (Some 0%nat) [mkrec 1250 EXIT 2 4; mkrec 1260 ENTRY 2 3; mkrec 1270 EXIT 2 3; mkrec 1280 EXIT 1 2] ].
+Definition tid_witness_offset : list task :=
+  [ mktask None [mkrec 1000 ENTRY 2 1; mkrec 1200 ENTRY 3 4; mkrec 1300 EXIT 3 4; mkrec 1500 EXIT 2 1];
+    mktask (Some 0%nat) [mkrec 1250 EXIT 3 4; mkrec 1260 ENTRY 3 3; mkrec 1270 EXIT 3 3; mkrec 1280 EXIT 2 1] ].
 
 Lemma tid_child_only_refuted :
-  forallb wf_task tid_witness_tasks = true /\
-  events_of (fst (replay_raw (mkcfg false [4]) (Some [1%nat]) tid_witness_tasks)) <>
+  forallb wf_task tid_witness_offset = true /\
+  events_of (fst (replay_raw (mkcfg false [4]) (Some [1%nat]) tid_witness_offset)) <>
+  filter (fun e => selected (Some [1%nat]) (e_task e))
+         (events_of (fst (replay_raw (mkcfg false [4]) None tid_witness_offset))).
+Proof. split; [vm_compute; reflexivity|]. vm_compute. intros H. discriminate H. Qed.
+
+(* the common case: the parent is displayed from depth 0, then the child alone is shown exactly as
+   in the full view (the witness of the former defect tid-child-without-parent) *)
+Example tid_child_alone_agrees :
+  events_of (fst (replay_raw (mkcfg false [4]) (Some [1%nat]) tid_witness_tasks)) =
   filter (fun e => selected (Some [1%nat]) (e_task e))
          (events_of (fst (replay_raw (mkcfg false [4]) None tid_witness_tasks))).
-Proof. split; [vm_compute; reflexivity|]. vm_compute. intros H. discriminate H. Qed.
+Proof. vm_compute. reflexivity. Qed.
 
 (* ------------------------------------------------------------------ presentation passes *)
 (* print_time_unit is exact (and the identity on our encoding) below one millisecond *)
@@ -1071,7 +1134,7 @@ Theorem fmt_time_exact d : d < 1000000 -> fmt_time d = d.
 Proof.
   intros H. unfold fmt_time. destruct (d =? 0) eqn:E0; [lia|].
   replace (d <? 9223372036854775808) with true by lia.
-  unfold time_limits. cbn [fmt_loop].
+  unfold time_limits, UV.Gen.TimeUnit.TIME_UNIT_LIMITS. cbn [fmt_loop].
   assert (Hd : d / 1000 < 1000) by (apply N.div_lt_upper_bound; lia).
   replace (d / 1000 <? 1000) with true by lia.
   replace (999 <? d / 1000) with false by lia.
